@@ -240,6 +240,22 @@ def directive_templates(d: int, a: int, lit: int, site: int, with_var: bool, *, 
     return verdict(run_request(head + " " + body, {"v": True} if with_var else None))
 
 
+DUP_SHAPES = ["{ obj obj { id } }", "{ obj { id } obj }", "{ x: int x: obj { id } }", "{ obj { self self { id } } }", "{ ...F obj } fragment F on Query { obj { id } }",
+              "{ objs { id } objs }", "{ obj { id { x } id } }", "{ int { a } int }", "{ a: obj { id } a: objs { id } }", "{ obj @skip(if: true) obj { id } }"]
+
+
+def duplicate_response_keys(k: int, variant: int) -> bool:
+    """The same response key selected twice with and without a sub-selection (merge validation
+    has to cope with every combination): errors are returned, never raised."""
+    text = DUP_SHAPES[forked(k, 0, len(DUP_SHAPES))]
+    variant = forked(variant, 0, 3)
+    if variant == 1:
+        text = "query Q " + text
+    elif variant == 2:
+        text = text.replace("{ ", "{ __typename ", 1)
+    return verdict(run_request(text) and run_request(text, {"v": 1}, "Q"))
+
+
 def fragment_cycles(op: int, n: int, via_inline: bool, nested: bool) -> bool:
     """Fragment spread cycles (length 1..3) under every operation kind are reported, not crashed on."""
     opk = OPS[forked(op, 0, 3)]
@@ -267,7 +283,19 @@ class WeirdMessage(Exception):
     message = 42
 
 
-EXC = [Exception("e"), ValueError(1, 2), KeyError("k"), GraphQLError("g"), WeirdStr(), WeirdMessage(), ZeroDivisionError(), TypeError(None), StopIteration(), AttributeError("a")]
+class WithListPath(Exception):
+    """looks like an already located error (has a list-valued `path`) but is not a GraphQLError"""
+    path = []
+
+
+class WithStrPath(Exception):
+    path = "a/b"
+    locations = 7
+    nodes = "n"
+
+
+EXC = [Exception("e"), ValueError(1, 2), KeyError("k"), GraphQLError("g"), WeirdStr(), WeirdMessage(), ZeroDivisionError(), TypeError(None), StopIteration(), AttributeError("a"),
+       WithListPath("p"), WithStrPath("q"), ImportError("i", name="n", path="/x")]
 RAISING_FIELDS = ["int", "obj", "Obj.id", "Obj.self", "objs", "nn", "Obj.req", "list"]
 RAISE_DOC = "{ int obj { id self { id req } } objs { id name } nn list }"
 
@@ -305,7 +333,7 @@ BOUNDS = {
         "graphql_sync on every string <= 2 code points; 5 documents truncated at every point; one arbitrary code point substituted at every position of 1 document (5 in thorough)",
         "bracket nesting depth 0..100 x 4 bracket kinds x closed/unclosed",
         "variables: one of 10 variables set to None/int/float/str<=2/bool/[int]/[str,None]/dict/dict, operation name None or any str <= 2",
-        "resolver failure: 8 resolver positions x 10 exception instances x raised/returned",
+        "resolver failure: 8 resolver positions x 13 exception instances x raised/returned; 10 duplicate-response-key shapes x 3 variants",
         "did-you-mean: suggestion_list on every string <= 2 code points; enum variable value any string <= 2 with suggestions on",
         "directive templates: 3 operation kinds x 6 directives x 4 argument names x 10 literals x 4 sites x with/without variable definition",
         "fragment cycles: 3 operation kinds x cycle length 1..3 x via inline fragment x nested",
@@ -351,6 +379,7 @@ def obligations(tier):
     for op in range(3):
         obs.append(dict(fn="directive_templates", cell=dict(op=op), budget_s=B * 2))
     obs.append(dict(fn="fragment_cycles", cell={}, budget_s=B))
+    obs.append(dict(fn="duplicate_response_keys", cell={}, budget_s=B))
     return obs
 
 
@@ -370,3 +399,5 @@ def corpus():
     yield "enum_variable_with_suggestions", dict(length=3), dict(sv="RED")
     yield "directive_templates", dict(op=0), dict(d=2, a=0, lit=2, site=1, with_var=False)
     yield "fragment_cycles", {}, dict(op=0, n=2, via_inline=False, nested=False)
+    yield "duplicate_response_keys", {}, dict(k=0, variant=0)
+    yield "duplicate_response_keys", {}, dict(k=4, variant=1)
